@@ -51,6 +51,7 @@ DEFAULT_KNOBS = Knobs(
     p_return_over_params=0.12,  # the returned expression mentions parameters ("a + b")
     p_scalar_code_default=0.06,  # an int/float/bool (or Optional thereof) whose default is a computed expression
     p_multiline_doc=0.0,  # prose that itself contains a line break (as descriptions parsed from multi-line entries do)
+    p_float_typed_int_default=0.0,  # `lr: float = 1`: an integer literal as the default of a float-typed entry
     p_boundary_doc=0.1,  # prose of an exact length around the wrap width, so that the break falls inside / next to the default sentence
     p_multi_line_summary=0.3,
     p_long_summary=0.15,
@@ -273,6 +274,10 @@ class IRGen:
             v, dc = self.v_str(name)
         elif base == "int":
             v, dc = self.v_int()
+        elif base == "float" and k.p_float_typed_int_default and self.chance(k.p_float_typed_int_default):
+            v, dc = self.v_int()
+            if v == 0:
+                v, dc = 1, "int_pos"
         elif base == "float":
             v, dc = self.v_float()
         elif base == "bool":
